@@ -701,11 +701,10 @@ fn unhex(s: &str) -> Vec<u8> {
     (0..s.len() / 2).map(|i| u8::from_str_radix(&s[2 * i..2 * i + 2], 16).unwrap()).collect()
 }
 
-/// `new_cid` takes the first candidate that no live connection uses (the book knows which are in use;
-/// leaked CIDs count as in use, they are still registered)
+/// `new_cid` takes the first candidate that no live connection uses (the book knows which are in use)
 fn pick_free(b: &Book, cands: &[Vec<u8>], taken: &[Vec<u8>]) -> Vec<u8> {
     for c in cands {
-        let in_use = b.conns.values().any(|x| x.cids.values().any(|y| y == c)) || b.leaked.contains(c) || taken.contains(c);
+        let in_use = b.conns.values().any(|x| x.cids.values().any(|y| y == c)) || taken.contains(c);
         if !in_use {
             return c.clone();
         }
